@@ -37,6 +37,7 @@ class Ctx:
             "valid_utf8": _valid_utf8,
             "wit": lambda x: True,
             "_priv": _priv,
+            "crc32c": _crc32c,
             "all_in": lambda c, f: all(f(x) for x in list(c)),
             "joined": lambda f, n: b"".join(bytes(f(k)) for k in range(n)),
         }
@@ -135,6 +136,11 @@ class Ctx:
         env = dict(self.env)
         env.update(local)   # lambdas inside forall() resolve names through globals
         return eval(compile(tree, "<contract>", "eval"), env, {})
+
+
+def _crc32c(data):
+    from google_crc32c import value
+    return value(bytes(data))
 
 
 def _priv(obj, name):
